@@ -128,6 +128,14 @@ def body_inverse(case):
     n = len(beta)
     u, rows, zaxis, node_hit = make_u(version, log_e, beta, t, kmode, frac)
     low, high, valid = classify(beta)
+    # short-lived module objects of the OTHER table versions are created, used and dropped first (their memory is
+    # recycled): the object under test must not inherit anything from the dead ones (caches keyed on id())
+    for i_ in range(4):
+        with cut("short-lived Taus objects"):
+            tmp_ = _taus({"1": "3", "2": "3", "3": "1"}[version] if i_ % 2 == 0 else {"1": "2", "2": "1", "3": "2"}[version])
+            tmp_.tau_energy(np.full(2, 0.3), np.full(2, 9.0), np.full(2, 0.5))
+            tmp_.tau_exit_prob(np.full(2, 0.3), np.full(2, 9.0))
+            del tmp_
     taus = _taus(version)
     b0, e0, u0 = beta.tobytes(), log_e.tobytes(), u.tobytes()
     with cut("Taus.tau_energy(betas, log_e_nu, u)"):
